@@ -109,6 +109,10 @@ func (g *TokenGenerator) DecodeToken(encrypted []byte) (*Token, error) {
 		encodedRemoteAddr: t.RemoteAddr,
 	}
 	if t.IsRetryToken {
+		// protocol.ParseConnectionID panics on more than 20 bytes
+		if len(t.OriginalDestConnectionID) > protocol.MaxConnIDLen || len(t.RetrySrcConnectionID) > protocol.MaxConnIDLen {
+			return nil, protocol.ErrInvalidConnectionIDLen
+		}
 		token.OriginalDestConnectionID = protocol.ParseConnectionID(t.OriginalDestConnectionID)
 		token.RetrySrcConnectionID = protocol.ParseConnectionID(t.RetrySrcConnectionID)
 	} else {
